@@ -791,6 +791,26 @@ def check_status(ck, s, tainted):
                   "xzdiff: `%s` can be given the operand `-` (standard input), but it runs with `<%s`: `xzdiff FILE.xz - <OTHER` "
                   "compares FILE with empty data (identical files are reported as different, an empty FILE as identical)" % (
                       " ".join(w.text() for w in c["words"]), stolen[1]), key="STATUS:xzdiff:stdin-operand")
+    if s.name == "xzdiff":
+        # decompressor selection: the arms of `case $1` assign xz1, the arms of `case $2` assign xz2 (sibling blocks)
+        for c, ctx in s.cmds:
+            if c["t"] != "case":
+                continue
+            opn = [nm for nm, q, p in word_params(c["word"]) if nm in ("1", "2")]
+            if len(opn) != 1:
+                continue
+            asg = [(nm, x["line"]) for pats, body, ln in c["arms"] for x, _ in sh.walk_commands(body)
+                   if x["t"] == "simple" and not x["words"] for (nm, v_) in x.get("assigns", []) if nm in ("xz1", "xz2")]
+            if not asg:
+                continue
+            n += 1
+            wrong = [(nm, ln) for nm, ln in asg if nm != "xz" + opn[0]]
+            ck.ob("C20-STATUS", "xzdiff:select:%s:%d" % (opn[0], c["line"]), not wrong, s.where(wrong[0][1] if wrong else c["line"]),
+                  "xzdiff: every arm of `case $%s` assigns xz%s (%d arms)" % (opn[0], opn[0], len(asg)) if not wrong else
+                  "xzdiff: an arm of `case $%s` assigns %s (line %d): the decompressor for operand %s is chosen from the suffix of "
+                  "the other operand, so e.g. a .bz2 file is fed to xz, passed through unchanged and compared as raw bytes" % (
+                      opn[0], wrong[0][0], wrong[0][1], "1" if wrong[0][0] == "xz1" else "2"),
+                  key="STATUS:xzdiff:select")
     if s.name == "xzgrep":
         # res only moves 1 -> 0 (match) or up to the largest error: every later store is guarded by a test of $res
         for (name, v, c, ctx) in s.assigns:
@@ -810,6 +830,70 @@ def check_status(ck, s, tainted):
                   "xzgrep: res=%s is executed only under a test of the current $res" % v.text() if guarded else
                   "xzgrep: res=%s at line %d is unconditional: a match in a later file erases the error status (>= 2) "
                   "recorded for an earlier file" % (v.text(), c["line"]), key="STATUS:xzgrep:res-monotone")
+        # ... and the update as a whole is the documented accumulator: finite evaluation of the if/elif over
+        # (res, r) in {0..3} x {0..3} against  r >= 2: res = max(res, r);  r == 0: res = 0 if res == 1;  else unchanged
+        def _val(w, env):
+            t_ = w.text().strip('"')
+            if t_.startswith("$"):
+                return env[t_[1:]]
+            return int(t_)
+
+        def _test(words, env):
+            if len(words) != 4 or words[0].text() != "test":
+                raise AnalysisBroken("xzgrep: status test `%s` not understood" % " ".join(w.text() for w in words))
+            a, b_ = _val(words[1], env), _val(words[3], env)
+            return {"-lt": a < b_, "-le": a <= b_, "-gt": a > b_, "-ge": a >= b_, "-eq": a == b_, "-ne": a != b_}[words[2].text()]
+
+        def _run_list(lst, env):
+            # a list of and-or items:  test ... && res=V
+            for it in lst["items"]:
+                pipes = it["items"]
+                ok = True
+                for k_, (op_, pl) in enumerate(pipes):
+                    if k_ > 0 and ((op_ == "&&" and not ok) or (op_ == "||" and ok)):
+                        continue
+                    cmd = pl["cmds"][0]
+                    if cmd["t"] != "simple":
+                        raise AnalysisBroken("xzgrep: status update contains a compound command")
+                    if cmd["words"]:
+                        ok = _test(cmd["words"], env)
+                    else:
+                        for (nm, v_) in cmd["assigns"]:
+                            env[nm] = _val(v_, env)
+                        ok = True
+        upd = None
+        for c, ctx in s.cmds:
+            if c["t"] == "if":
+                first = [x for x, _ in sh.walk_commands(c["clauses"][0][0]) if x["t"] == "simple"]
+                if first and [w.text() for w in first[0]["words"]][:2] == ["test", '"$r"'] and \
+                        any(nm == "res" for x, _ in sh.walk_commands(c["clauses"][0][1]) for (nm, v_) in x.get("assigns", [])):
+                    upd = c
+        if upd is None:
+            raise AnalysisBroken("xzgrep: the if/elif that folds $r into $res was not found")
+        wit = None
+        for res0 in range(4):
+            for r0 in range(4):
+                env = {"res": res0, "r": r0}
+                done = False
+                for cond, body in upd["clauses"]:
+                    cw = [x for x, _ in sh.walk_commands(cond) if x["t"] == "simple"][0]["words"]
+                    if _test(cw, env):
+                        _run_list(body, env)
+                        done = True
+                        break
+                if not done and upd["else"] is not None:
+                    _run_list(upd["else"], env)
+                want = max(res0, r0) if r0 >= 2 else (0 if (r0 == 0 and res0 == 1) else res0)
+                if r0 >= 2 and res0 in (0, 1):
+                    want = r0
+                if env["res"] != want and wit is None:
+                    wit = (res0, r0, env["res"], want)
+        n += 1
+        ck.ob("C20-STATUS", "xzgrep:res-accumulator", wit is None, s.where(upd["line"]),
+              "xzgrep: the status update equals `error: max; match: 1 -> 0` on all 16 (res, r) pairs" if wit is None else
+              "xzgrep: with res=%d from the earlier files and r=%d for this file the script sets res=%d, the documented result is "
+              "%d (a decompression/grep error must never be masked by matches in other files)" % wit,
+              key="STATUS:xzgrep:res-accumulator")
         ex_ = [c for c, _ in s.cmds if c["t"] == "simple" and c["words"] and c["words"][0].plain() == "exit"]
         last = s.ast["items"][-1]["items"][0][1]["cmds"][0]
         okx = last["t"] == "simple" and [w.text() for w in last["words"]] == ["exit", '"$res"']
